@@ -377,6 +377,15 @@ def task_fn(task: tuple) -> dict:
     return part.out()
 
 
+def replay_case(raw: dict, part: Part) -> None:
+    backends.setup_determinism()
+    backends.sqlite_template()
+    if "program" in raw:
+        run_program(raw["config"], tuple(raw["program"]), raw["n_objectives"], raw["catch"], raw["callback"], raw["hostile_hook"], part)
+    else:
+        run_tell(raw["config"], raw["n_objectives"], part)
+
+
 def run(tier: str, replay: str | None = None) -> int:
     backends.setup_determinism()
     ctx = Ctx(PID, tier, "model_checking")
